@@ -337,6 +337,12 @@ func runC07(c *Ctx) {
 			sw.AddFileNamedLikeAGlobal(r.Fork(0x66696c66))
 			c.Count("workspaces_with_a_file_named_like_a_global", 1)
 		}
+		if r.Fork(0x72657175).Chance(1, 5) {
+			if sw2, n := sw.WithRequireOfModuleNamedLikeAGlobal(r.Fork(0x72657176)); n != "" {
+				sw = sw2
+				c.Count("workspaces_that_require_a_module_named_like_a_global_they_use", 1)
+			}
+		}
 		c.Eval(1)
 		jsonCfg := ""
 		var ign *c07Ignore
